@@ -74,6 +74,15 @@ CATALOGUE = [
     # object upcast only: a class with a second, unresolvable base is still not convertible to unrelated classes
     ("result-type", "peer", "plot1"), ("assignment", "ival", "{ a.peer = plot1; 1 }"), ("assignment", "ival", "{ let v: VfWidget = plot1; 1 }"),
     ("arguments", "ival", "{ a.takeMode(plot1); 1 }"), ("operand-types", "bval", "plot1 == a"), ("assignment", "ival", "{ let v: VfOther = plot1; 1 }"),
+    # a protected base is no base for conversions
+    ("result-type", "peer", "hidden1"), ("assignment", "ival", "{ a.peer = hidden1; 1 }"), ("assignment", "ival", "{ let v: VfWidget = hidden1; 1 }"),
+    ("arguments", "ival", "hidden1.ival"), ("operand-types", "bval", "hidden1 == a"),
+    # every return of a body has to agree with ALL the others, whatever comes first (an untyped literal first hides nothing)
+    ("result-type", "uval", "{ if ({B_d}) return 0; if (!{B_d}) return {I_d}; return {U_d}; }"),
+    ("result-type", "ival", "{ if ({B_d}) return 1; if (!{B_d}) return {U_d}; return {I_d}; }"),
+    ("result-type", "dval", "{ if ({B_d}) return {D_d}; if (!{B_d}) return {I_d}; return {D}; }"),
+    ("result-type", "ival", "{ switch ({I_d}) { case 1: return 0; case 2: return {U_d}; default: return {I_d}; } }"),
+    ("result-type", "sval", "{ if ({B_d}) return {S}; if (!{B_d}) return {I_d}; return {S_d}; }"),
 ]
 
 # well-typed controls built from the same vocabulary (must be accepted)
@@ -89,7 +98,9 @@ CONTROLS = [
     ("dval", "-{D_d} / 2.0"), ("bval", "{S} < {S_d}"), ("bval", "!{B_d} != ({I_d} >= {I})"), ("ival", "{I_d} === 3 ? 1 : 2"),
     # upcast of a class with an additional unresolvable base to its resolvable base; null / [] with their own kind
     ("wpeer", "plot1"), ("ival", "{ a.takeW(plot1); a.wpeer = plot1; plot1.level }"), ("bval", "{P_d} != null"),
-    ("peer", "{B_d} ? a : null"), ("slist", '{B_d} ? ["a"] : []'),
+    ("peer", "{B_d} ? a : null"), ("slist", '{B_d} ? ["a"] : []'), ("wpeer", "hidden1"), ("ival", "hidden1.depth"),
+    ("uval", "{ if ({B_d}) return 0; if (!{B_d}) return 7; return {U_d}; }"), ("ival", "{ if ({B_d}) return 0; if (!{B_d}) return {I_d}; return 3; }"),
+    ("peer", "{ if ({B_d}) return null; if (!{B_d}) return a; return b; }"),
 ]
 
 
@@ -104,7 +115,7 @@ def expand(tmpl, variant):
 
 
 def wrap(prop, prog):
-    return ("import qmluic.QtWidgets\nQWidget {\n VfWidget { id: a }\n VfWidget { id: b }\n VfSub { id: sub1 }\n VfOther { id: other1 }\n VfPlot { id: plot1 }\n"
+    return ("import qmluic.QtWidgets\nQWidget {\n VfWidget { id: a }\n VfWidget { id: b }\n VfSub { id: sub1 }\n VfOther { id: other1 }\n VfPlot { id: plot1 }\n VfHidden { id: hidden1 }\n"
             " VfWidget {\n  id: t0\n  %s: %s\n }\n}\n" % (prop, prog))
 
 
